@@ -22,6 +22,12 @@ pub struct World {
     pub history: Vec<String>,
     /// connections whose broker-side task was dropped; the broker has not noticed yet
     pub zombies: std::collections::BTreeSet<C>,
+    /// a connection whose own fate (what it receives, whether it is closed) is not judged in
+    /// the current comparison (C11: the abuser may be answered, ignored or closed)
+    pub lenient: Option<C>,
+    /// check that payloads delivered to pre-1.20 connections contain no 1.20 encodings (only
+    /// sound when every sender's payloads respect its own version)
+    pub check_payload_epoch: bool,
 }
 
 /// Failure of a lock-step comparison.
@@ -92,6 +98,8 @@ impl World {
             notes: vec![],
             history: vec![],
             zombies: Default::default(),
+            lenient: None,
+            check_payload_epoch: true,
         }
     }
 
@@ -192,6 +200,20 @@ impl World {
         for c in all {
             let empty = vec![];
             let got = obs.get(&c).unwrap_or(&empty);
+            // what a connection is sent must fit its negotiated version
+            if let Some(mc) = self.model.conns.get(&c) {
+                for m in got {
+                    if let Some(why) = newer_than(m, mc.minor, self.check_payload_epoch) {
+                        return Err(Fail::new(
+                            format!("version:newer-message:{}", kind_name(m)),
+                            format!("connection c{} negotiated 1.{} but was sent {} ({})", c, mc.minor, short(m), why),
+                        ));
+                    }
+                }
+            }
+            if self.lenient == Some(c) {
+                continue;
+            }
             let exp = expected.get(&c).cloned().unwrap_or_default();
             let mut used = vec![false; got.len()];
             let got_norm: Vec<Vec<u8>> = got.iter().map(norm).collect();
@@ -256,7 +278,7 @@ impl World {
         // connection liveness as seen by the peers
         for (i, conn) in self.conns.iter().enumerate() {
             let must_be_closed = !self.model.conns.get(&i).map(|x| x.alive).unwrap_or(false);
-            if conn.peer.has_transport() && !self.zombies.contains(&i) {
+            if conn.peer.has_transport() && !self.zombies.contains(&i) && self.lenient != Some(i) {
                 if must_be_closed && !conn.peer.disconnected {
                     return Err(Fail::new("conn:not-closed", format!("connection c{} must have been closed by the broker but its transport is still open", i)));
                 }
@@ -285,6 +307,33 @@ impl World {
         }
         Ok(())
     }
+}
+
+/// Why a message must not be sent to a connection of version 1.`minor`, if so. Restated from the
+/// protocol changelog: abort 1.16; introspection, CreateService2, QueryServiceInfo 1.17;
+/// service / all-events subscription 1.18; CallFunction2 1.19; epoch-2 value encodings 1.20.
+pub fn newer_than(m: &Message, minor: u32, payload: bool) -> Option<String> {
+    let need = match m {
+        Message::AbortFunctionCall(_) => 16,
+        Message::RegisterIntrospection(_) | Message::QueryIntrospection(_) | Message::QueryIntrospectionReply(_) | Message::CreateService2(_) | Message::QueryServiceInfo(_) | Message::QueryServiceInfoReply(_) => 17,
+        Message::SubscribeService(_) | Message::SubscribeServiceReply(_) | Message::UnsubscribeService(_) | Message::SubscribeAllEvents(_) | Message::SubscribeAllEventsReply(_) | Message::UnsubscribeAllEvents(_) | Message::UnsubscribeAllEventsReply(_) => 18,
+        Message::CallFunction2(_) => 19,
+        _ => 0,
+    };
+    if minor < need {
+        return Some(format!("message kind introduced in 1.{}", need));
+    }
+    if minor < 20 && payload {
+        if let Some(v) = m.value() {
+            let bytes: &[u8] = v;
+            if let Ok(d) = refcodec::decode_all(bytes, Mode::Skip) {
+                if refcodec::has_v2(&d.tree) {
+                    return Some("payload contains a container encoding introduced in 1.20".into());
+                }
+            }
+        }
+    }
+    None
 }
 
 pub fn task_kind(name: &str) -> &'static str {
